@@ -88,7 +88,7 @@ def placeholder_leaf(rng, p_item=0.25, kinds=None, allow_missing=True):
         idx = rng.choice([0, 0, 1, 1, 2])
         pl = ast.Subscript(value=_name("players"), slice=ast.Constant(value=idx), ctx=_LOAD)
         return _hop(rng, pl, rng.choice(PVARS), p_item)
-    coll, dev, attr, _ = rng.choice(DEVICE_ATTRS)
+    coll, dev, attr, _ = rng.choice(DEVICE_ATTRS) if rng.random() > 0.12 else DEVICE_ATTRS[6]
     node = _hop(rng, _name("device"), coll, p_item)
     node = _hop(rng, node, dev, p_item)
     node = _hop(rng, node, attr, p_item)
@@ -189,7 +189,7 @@ def features(src):
         elif isinstance(n, ast.Subscript):
             if not isinstance(n.slice, ast.Constant):
                 f.add("computed_index")
-            elif _is_placeholder_chain(n.value):
+            elif isinstance(n.slice.value, str) and _is_placeholder_chain(n.value):
                 f.add("item_placeholder")
             else:
                 f.add("index")
@@ -218,7 +218,11 @@ def _is_placeholder_chain(node):
 
 
 def placeholder_leaves(src):
-    """Maximal placeholder access chains in `src` -> list of (source, root name, uses_item_access)."""
+    """Maximal placeholder access chains in `src` -> list of (source, root name, uses_item_access, key).
+
+    key identifies the variable that is read, e.g. ('machine', 'mv0'), ('players', 1, 'pv0'),
+    ('device', 'counters', 'c1', 'value'); the mirrors record the same keys when they are read.
+    """
     tree = ast.parse(src, mode="eval")
     out = []
     seen = set()
@@ -231,13 +235,19 @@ def placeholder_leaves(src):
                 seen.add(s)
                 item = False
                 n = node
-                root = None
+                path = []
                 while isinstance(n, (ast.Attribute, ast.Subscript)):
-                    if isinstance(n, ast.Subscript) and isinstance(n.slice, ast.Constant) and isinstance(n.slice.value, str):
-                        item = True
+                    if isinstance(n, ast.Subscript):
+                        if isinstance(n.slice, ast.Constant) and isinstance(n.slice.value, str):
+                            item = True
+                        path.append(n.slice.value if isinstance(n.slice, ast.Constant) else None)
+                    else:
+                        path.append(n.attr)
                     n = n.value
                 root = n.id
-                out.append((s, root, item))
+                path.reverse()
+                depth = {"machine": 1, "settings": 1, "current_player": 1, "players": 2, "device": 3}[root]
+                out.append((s, root, item, (root,) + tuple(path[:depth])))
             return
         for c in ast.iter_child_nodes(node):
             visit(c)
